@@ -182,6 +182,9 @@ type obs struct {
 	viewKind string
 	viewPos  int
 	noConc   bool   // no concrete method of that name/signature for these operand types
+	walk     string // a joint-iterator traversal deviates (joint.go)
+	walkKind string
+	walkNA   bool   // the walk program does not apply (stream shorter than k, clone kind not offered)
 	rtyp     string // element type of the container the result was read from
 }
 
@@ -385,6 +388,35 @@ func run(cs *Case, t *tinfo) (o *obs) {
 			rt = cs.CT
 		}
 		o.readVec(r, d[0], n, cs.slotVar(0), rt)
+	case "VjointWalk", "VcjointWalk", "MjointWalk":
+		rt := t.name
+		if cs.Stor[0] == 'c' {
+			rt = cs.CT
+		}
+		at := t.name
+		if cs.Stor[1] == 'c' {
+			at = cs.CT
+		}
+		R, A := make([]float64, len(cs.R)), make([]float64, len(cs.A))
+		for i := range R {
+			R[i], A[i] = roundTo(rt, letterVal(cs.R[i])), roundTo(at, letterVal(cs.A[i]))
+		}
+		var cur *cursor
+		switch cs.Op {
+		case "VjointWalk":
+			cur = vecCursor(vec(0).JointIterator(cv(1)), d[0])
+		case "VcjointWalk":
+			cur = vecCursorC(cv(0).ConstJointIterator(cv(1)), d[0])
+		default:
+			cur = matCursor(mat(0).JointIterator(mat(1)), d[1])
+		}
+		kind, msg, ran := runWalk(cur, cs.B, R, A)
+		o.walk, o.walkKind, o.walkNA = msg, kind, !ran
+		if cs.Op == "MjointWalk" {
+			o.readMat(mat(0), d[0], d[1], n, false, rt)
+		} else {
+			o.readVec(cv(0), d[0], n, false, rt)
+		}
 	case "Vreset":
 		r := vec(0)
 		r.Reset()
